@@ -345,14 +345,22 @@ impl Check for EosCheck {
         }
     }
     fn required(&self, _tier: Tier) -> Vec<&'static str> {
-        vec!["fault:timeout_fired", "fault:peer_drop", "wait_returned_true", "wait_returned_false", "peer_dropped_during_wait_loop"]
+        vec!["fault:timeout_fired", "fault:peer_drop", "wait_returned_true", "wait_returned_false", "peer_dropped_during_wait_loop", "verdict_on_exactly_full_ring_after_writer_left"]
     }
     fn run(&self, src: &mut Src, ctx: &mut RunCtx) -> RunResult {
         let kind = *src.pick(&[EosKind::ReaderWaits, EosKind::ReaderEofPoll, EosKind::WriterWaits, EosKind::NcReaderWaits, EosKind::NcReaderEofPoll, EosKind::NcWriterWaits]);
         let deep = crate::engine::deep();
         let pieces = src.below(if deep { 13 } else { 5 });
         let big = deep && src.chance(1, 3);
-        let piece_sizes: Vec<usize> = (0..pieces).map(|_| src.range(1, if big { 60 } else { 6 })).collect();
+        let mut piece_sizes: Vec<usize> = (0..pieces).map(|_| src.range(1, if big { 60 } else { 6 })).collect();
+        // Sometimes the writer leaves the ring exactly full (read position ==
+        // write position, like an empty ring) before it goes away.
+        let fill_exact = matches!(kind, EosKind::ReaderWaits | EosKind::ReaderEofPoll) && src.chance(1, 6);
+        if fill_exact {
+            let cap = 1024; // one page of u32
+            let k = *src.pick(&[0usize, 1, 5, 512, 1023]);
+            piece_sizes = if k == 0 { vec![cap] } else { vec![k, cap - k] };
+        }
         let total: usize = piece_sizes.iter().sum();
         let need = match src.below(5) {
             0 => 1,
@@ -413,6 +421,9 @@ impl Check for EosCheck {
                         let gone_after = peer_gone.load(Ordering::SeqCst);
                         // Facts at the return instant.
                         let avail = r.read_buf().map(|(b, _)| b.len()).unwrap_or(0);
+                        if gone_before && avail == r.total_size() {
+                            probe("verdict_on_exactly_full_ring_after_writer_left");
+                        }
                         if !gone_before && gone_after {
                             probe("peer_dropped_during_wait_loop");
                         }
@@ -732,6 +743,9 @@ impl Check for MtGraphCheck {
 pub enum C07Mode {
     Cancel,
     Fail,
+    /// A failing block in a graph that is also cancelled (by a canceller
+    /// thread, or by the failing block itself right before it fails).
+    FailCancel,
 }
 
 /// Shared by C05 and the MTGraph leg of C07.
@@ -744,7 +758,7 @@ pub fn mtgraph_run(src: &mut Src, ctx: &mut RunCtx, prop: &'static str, c07: Opt
             recipe.infinite = src.chance(2, 3);
             // Infinite sources only feed rate-1 friendly chains; keep what was drawn.
         }
-        Some(C07Mode::Fail) => {
+        Some(C07Mode::Fail) | Some(C07Mode::FailCancel) => {
             let pos = src.below(recipe.stages.len() + 1);
             let k = src.range(1, 6) as u64;
             // Insert outside diamonds.
@@ -759,7 +773,14 @@ pub fn mtgraph_run(src: &mut Src, ctx: &mut RunCtx, prop: &'static str, c07: Opt
     }
     // Fail stage changes no type; but gen_recipe's later stages were typed
     // against the chain, so inserting a pass-through is type-safe.
-    let cancel_after = if matches!(c07, Some(C07Mode::Cancel)) { Some(src.below(400)) } else { None };
+    // FailCancel: half the time the failing block cancels the graph itself in
+    // the failing call; otherwise a canceller thread does, at a drawn point.
+    let self_cancel = matches!(c07, Some(C07Mode::FailCancel)) && src.coin();
+    let cancel_after = match c07 {
+        Some(C07Mode::Cancel) => Some(src.below(400)),
+        Some(C07Mode::FailCancel) if !self_cancel => Some(src.below(120)),
+        _ => None,
+    };
     // Spawn failure is not part of C07 as stated; the fault kind stays available but off.
     let spawn_fail: Option<usize> = None;
     let mut cfg = SchedCfg::draw(src, 3_000_000, false);
@@ -798,8 +819,14 @@ pub fn mtgraph_run(src: &mut Src, ctx: &mut RunCtx, prop: &'static str, c07: Opt
         rustradio::verif::set_stream_size(0);
         *ff2.lock().unwrap() = built.fail_flags.first().cloned();
         let mut blocks: Vec<Box<dyn Block + Send>> = Vec::new();
+        let token_slot = Arc::new(Mutex::new(None));
         for b in std::mem::take(&mut built.blocks) {
             let name = b.block_name().to_string();
+            let b: Box<dyn Block + Send> = if self_cancel && name == "FailAt" {
+                Box::new(crate::graphsim::CancelAt { inner: b, token: token_slot.clone(), k: fail_pos.map(|f| f.1).unwrap_or(1), calls: 0, probe: p2.clone() })
+            } else {
+                b
+            };
             let (c, calls, after) = Counted::new(b, p2.clone());
             c2.lock().unwrap().push((name, calls, after));
             blocks.push(Box::new(c));
@@ -811,6 +838,7 @@ pub fn mtgraph_run(src: &mut Src, ctx: &mut RunCtx, prop: &'static str, c07: Opt
             g.add(b);
         }
         let token = g.cancel_token();
+        *token_slot.lock().unwrap() = Some(g.cancel_token());
         let canceller = cancel_after.map(|k| {
             let s3 = s2.clone();
             let p3 = p2.clone();
@@ -844,7 +872,7 @@ pub fn mtgraph_run(src: &mut Src, ctx: &mut RunCtx, prop: &'static str, c07: Opt
     // Block thread panics (e.g. a bug in a block under a rare interleaving).
     let block_panic = g.panics.iter().find(|p| p.1 != "root").cloned();
     let root_panic = g.panics.iter().find(|p| p.1 == "root").cloned();
-    let injected_failure = matches!(c07, Some(C07Mode::Fail));
+    let injected_failure = matches!(c07, Some(C07Mode::Fail) | Some(C07Mode::FailCancel));
     if let Some((_, name, msg, loc)) = &block_panic {
         return Err(Violation::new(format!("{prop}:block-thread-panicked:{name}"), format!("thread {name} panicked: {msg} at {loc}")));
     }
@@ -914,8 +942,11 @@ pub fn mtgraph_run(src: &mut Src, ctx: &mut RunCtx, prop: &'static str, c07: Opt
                 }
             }
         }
-        Some(C07Mode::Fail) => {
+        Some(C07Mode::Fail) | Some(C07Mode::FailCancel) => {
             ctx.count("fault:block_error");
+            if probe.cancelled.load(Ordering::SeqCst) && fail_flag.lock().unwrap().as_ref().map(|f| f.load(Ordering::SeqCst)).unwrap_or(false) {
+                ctx.count("block_error_in_a_cancelled_graph");
+            }
             let reached = fail_flag.lock().unwrap().as_ref().map(|f| f.load(Ordering::SeqCst)).unwrap_or(false);
             match rr {
                 Some(Err(e)) => {
